@@ -115,6 +115,9 @@ func c06Inputs() []c06Input {
 	})
 	in = append(in, c06Input{Name: "weights-groups-15-digits", Files: map[string]string{"j.knut": grouped, "u.yaml": "Stocks: [AAA, BBB, CCC]\nBonds: [DDD]\n"},
 		Args: []string{"portfolio", "weights", "-v", "CHF", "--universe", "u.yaml", "--digits", "15", "--color=false", "j.knut"}})
+	// several commodities collapsed onto one node by -m: their weights are added up
+	in = append(in, c06Input{Name: "weights-collapsed-16-digits", Files: map[string]string{"j.knut": grouped, "u.yaml": "Stocks: [AAA, BBB, CCC, DDD]\n"},
+		Args: []string{"portfolio", "weights", "-v", "CHF", "--universe", "u.yaml", "-m", "1,.", "--digits", "16", "--color=false", "j.knut"}})
 	// infer with a large model (40 accounts) in which the candidates are exactly tied
 	var bigTrain strings.Builder
 	bigTrain.WriteString("2020-01-01 open Assets:Bank\n")
